@@ -366,7 +366,10 @@ def main(argv):
         "wall_s": round(wall, 2),
         "violations": len(violations),
     }
-    with open(os.path.join(VERIF, "evidence", prop + ".json"), "w") as fh:
+    # runs against another copy of the sources (HQ_REPO: seed / mutant experiments) must not clobber the evidence of /repo
+    ev_dir = os.path.join(VERIF, "evidence") if os.path.realpath(REPO) == os.path.realpath("/repo") else os.path.join(VERIF, "build", "evidence-alt")
+    os.makedirs(ev_dir, exist_ok=True)
+    with open(os.path.join(ev_dir, prop + ".json"), "w") as fh:
         json.dump(ev, fh, indent=1)
     print(f"{prop}: tier={args.tier} units={len(units)} functions={len(fn_rows)} obligations={total_obl} discharged={discharged} "
           f"violations={len(violations)} known={len(known_hits)} undecided={len(undecided)} wall={wall:.1f}s -> exit {rc}")
